@@ -5,7 +5,7 @@
    attributes), from the sources as committed in /repo (fix series proposed_fixes/SERIES-C14C15.txt + CSV cell-text fix b0400cb).
    "reachable s": s is the state after some sequence of requests whose library calls return (wf_request). *)
 From Coq Require Import List String ZArith QArith Bool.
-From Crem Require Import Base.Res Engine EngineProofs EngineC14 EngineCatchment.
+From Crem Require Import Base.Res Engine EngineProofs EngineC14 EngineSolutions EngineCatchment.
 From Crem Require Catchment.
 Import ListNotations.
 
@@ -78,6 +78,24 @@ Proof. exact route_equivalence_full. Qed.
 Theorem C14_engine_attributes_stay_tidy : forall (s : state V) m,
   reachable s -> st_model s = Some m -> tidy5 (m_attrs m).
 Proof. intros s m Hr Em. exact (proj1 (reachable_tidy s Hr m Em)). Qed.
+
+(* 4b. Replaced solution summaries: after ANY request sequence, GET /solutions/<label> is answered from the summary in
+       force NOW -- [last_table]: the table of the last POST /solutions answered 200, none once a later POST /scenario was
+       answered 200 -- and from nothing else: 404 (the JSON error document) unless a row of THAT table carries the label;
+       otherwise 200 with the Actions and Summary cells of the FIRST such row and the action set that encoding decodes
+       into (the As-Is label: the scenario's as-is entry).  Labels served from an earlier summary, however often, make no
+       difference: the solution pool is a cache whose every entry is what a fresh lookup in the current table yields
+       (EngineSolutions.PoolOk, an invariant of the reachable states). *)
+Theorem C14_solution_served_from_current_summary : forall (rs : list (request V)) (s : state V) (label : string) resp s',
+  forallb wf_request rs = true -> run init_state rs = Ok s ->
+  get_solution s label = Ok (resp, s') ->
+  answer_from (last_table (applied init_state rs) None) (st_model s) label resp.
+Proof. exact solution_from_current_summary. Qed.
+
+Theorem C14_label_not_in_current_summary_is_not_found : forall (s : state V) (label : string) resp s' t,
+  reachable s -> st_soltable s = Some t -> label_row label (t_rows t) = Ok None ->
+  get_solution s label = Ok (resp, s') -> resp = error_response 404 /\ s' = s.
+Proof. exact label_not_in_current_summary. Qed.
 
 End C14.
 
@@ -168,6 +186,34 @@ Example C14_example_error_keeps_state :
     /\ rs_status resp = 400%nat.
 Proof. eexists. vm_compute. split; reflexivity. Qed.
 
+(* Non-vacuity of 4b: a long summary, its label "L2" served, a short summary without "L2" posted, "L2" asked for again:
+   404; the label the short summary has instead is served with ITS row's cells. *)
+Definition sum_row (l enc : string) : list cell :=
+  [CS l; CF (Fin (1059911 # 1000)) "1059.911"%string; CS enc; CS (String.append "summary of " l)].
+Definition sum_req (rows : list (list cell)) : request (list bool) :=
+  {| rq_meth := MPost; rq_route := RSolutions; rq_ctype := CtCsv; rq_raw := "summary text"%string; rq_toml := TomlErr;
+     rq_csv := CsvOk {| t_header := ["Solution"%string; "SedimentProduction"%string; "Actions"%string; "Summary"%string];
+                        t_rows := rows |};
+     rq_json := JsonErr |}.
+Definition sol_get (l : string) : request (list bool) :=
+  {| rq_meth := MGet; rq_route := RSolution l; rq_ctype := CtOther; rq_raw := ""%string; rq_toml := TomlErr; rq_csv := CsvErr; rq_json := JsonErr |}.
+Definition sum_long := sum_req [sum_row "As-Is" "0"; sum_row "L1" "1"; sum_row "L2" "2"; sum_row "L3" "4"].
+Definition sum_short := sum_req [sum_row "As-Is" "0"; sum_row "S1" "6"].
+Definition sum_history : list (request (list bool)) :=
+  [ w_req MPost RScenario CtToml JsonErr; sum_long; sol_get "L2"; sol_get "L3"; sum_short ].
+Example C14_example_replaced_summary :
+  forallb wf_request sum_history = true
+  /\ exists s, run init_state sum_history = Ok s
+     /\ (exists resp, handle s (sol_get "L2") = Ok (resp, s) /\ resp = error_response 404)
+     /\ (exists resp, handle s (sol_get "L3") = Ok (resp, s) /\ resp = error_response 404)
+     /\ (exists resp s', handle s (sol_get "S1") = Ok (resp, s') /\ rs_status resp = 200%nat
+          /\ rs_body resp = BSolution "S"%string [false; true; true] [false; true; true] (Some ("6"%string, "summary of S1"%string))).
+Proof.
+  split; [vm_compute; reflexivity|]. eexists. split; [vm_compute; reflexivity|].
+  split; [eexists; split; vm_compute; reflexivity|]. split; [eexists; split; vm_compute; reflexivity|].
+  do 2 eexists. vm_compute. repeat split; reflexivity.
+Qed.
+
 Print Assumptions C14_error_leaves_state.
 Print Assumptions C14_text_verbatim.
 Print Assumptions C14_reads_do_not_write.
@@ -175,6 +221,8 @@ Print Assumptions C14_reads_depend_on_resources_only.
 Print Assumptions C14_snapshot_is_current.
 Print Assumptions C14_only_successful_writes_matter.
 Print Assumptions C14_solution_read_keeps_resources.
+Print Assumptions C14_solution_served_from_current_summary.
+Print Assumptions C14_label_not_in_current_summary_is_not_found.
 Print Assumptions C14_route_equivalence.
 Print Assumptions C14_engine_attributes_stay_tidy.
 Print Assumptions C14_served_variables_are_the_catchment_valuation.
